@@ -42,9 +42,13 @@ func (p *Program) staticCallSites() map[*ssa.Function][]ssa.CallInstruction {
 func (c *Ctx) checkFieldDiscipline(rule string, pkgs []string, eng *lockEngine, floor int) {
 	guards := map[*types.Var]string{}
 	for _, g := range guardTable {
+		mutex := g.mutex
+		if mv := c.field(g.pkg, g.typ, g.mutex); mv != nil {
+			mutex = mv.Name() // the mutex field under today's name
+		}
 		for _, f := range g.fields {
 			if fv := c.field(g.pkg, g.typ, f); fv != nil {
-				guards[fv] = g.mutex
+				guards[fv] = mutex
 			} else {
 				c.missing(rule, "guarded field "+g.pkg+"."+g.typ+"."+f)
 			}
